@@ -1118,9 +1118,11 @@ def _sym_name(ctx, tag, n, quoted, display_to):
     nm = ctx.fresh_chars(tag, n, 32, 126)
     banned = '"\\' if quoted else SPECIALS
     if display_to:
-        # PidTagDisplayTo: display names separated by ';' - a name holds no ';' (a comma is an ordinary
-        # character: "Doe, John"); names that look like markup or an address are left out
-        banned = ';<>@"\\'
+        # PidTagDisplayTo: display names separated by ';' - a name holds no ';'; names that look like markup or
+        # an address are left out
+        # (a comma is left out as well: a names-only list whose names hold a comma is ambiguous by nature and the
+        # comma/semicolon split is the extractor's documented behaviour - outside the claim)
+        banned = ',;<>@"\\'
     # (Outlook wraps display names in single quotes - 'John Doe' <j@x> - and the parser removes them: a name
     # that itself begins or ends with an apostrophe is left out of the claim)
     if ctx.concrete:
@@ -1144,11 +1146,8 @@ RECIPIENT_SAMPLES = ["John Doe <john@example.com>", "<admin@example.com>", "user
 
 def _k3r_translator_validation(ctx, msg):
     """lifted functions + regex interpreter on concrete strings == the real functions"""
-    from vf import lift
     ctx.decision_memo = {}
-    model = _ReModel()
-    single = lift.lift(msg._parse_single_recipient, re=model)
-    multi = lift.lift(msg._parse_multi_recipients, re=model, _parse_single_recipient=single)
+    multi = _lift_msg_recipients(msg)
     pairs = lambda rs: [(str(r.name), str(r.address)) for r in rs]
     n = 0
     for raw in RECIPIENT_SAMPLES + [RECIPIENT_SAMPLES[:3]]:
@@ -1162,9 +1161,20 @@ def _k3r_translator_validation(ctx, msg):
     ctx.require(n > 10, "translator-validation-empty")
 
 
+def _lift_msg_recipients(msg):
+    """the recipient functions of the MSG extractor lifted to symbolic strings (own source, string literals as
+    CharStr constants, ``re`` = the backtracking interpreter); the splitter exists since /repo 2f09567"""
+    from vf import lift
+    model = _ReModel()
+    extra = {"re": model}
+    if hasattr(msg, "_split_recipient_list"):
+        extra["_split_recipient_list"] = lift.lift(msg._split_recipient_list, **extra)
+    extra["_parse_single_recipient"] = lift.lift(msg._parse_single_recipient, **extra)
+    return lift.lift(msg._parse_multi_recipients, **extra)
+
+
 def k3r_recipients(ctx):
     msg = _msg()
-    from vf import lift
     if ctx.params.get("samples"):
         return _k3r_translator_validation(ctx, msg)
     mode = ctx.params["mode"]
@@ -1207,20 +1217,8 @@ def k3r_recipients(ctx):
         got = msg._parse_multi_recipients(raw)
     else:
         ctx.decision_memo = {}
-        model = _ReModel()
-        single = lift.lift(msg._parse_single_recipient, re=model)
-        multi = lift.lift(msg._parse_multi_recipients, re=model, _parse_single_recipient=single)
-        got = multi(raw)
+        got = _lift_msg_recipients(msg)(raw)
     shown = str(raw) if not as_list else [str(x) for x in raw]
-    known = "C16-msg-recipient-split-inside-display-name" in (ctx.params.get("known_active") or ()) and not ctx.perturb
-    if known:
-        for nm, _a in expected:
-            if isinstance(nm, str) and not nm:
-                continue
-            if bool(_any_char(nm, ",;<>")):
-                ctx.note("path-in-class-of-known-finding:C16-msg-recipient-split-inside-display-name")
-                ctx.require(True, "excluded-known-class")
-                return
     ctx.require(len(got) == len(expected), "recipient-count-differs", raw=shown, got=[(str(g.name), str(g.address)) for g in got],
                 expected=[(str(a), str(b)) for a, b in expected])
     for g, (nm, addr) in zip(got, expected):
@@ -1229,12 +1227,6 @@ def k3r_recipients(ctx):
         gn = g.name.strip() if hasattr(g.name, "strip") else g.name
         ctx.require(g.address == addr, "recipient-address-differs", raw=shown, got=str(g.address), expected=addr)
         ctx.require(gn == nm, "recipient-display-name-differs", raw=shown, got=str(g.name), expected=str(nm))
-
-
-def _any_char(s_, chars):
-    if isinstance(s_, str):
-        return any(ch in chars for ch in s_)
-    return S.CharStr._disj([S.CharStr._eqc(c, ord(ch)) for c in s_.c for ch in chars])
 
 
 def _k3r_parts(tier):
@@ -1249,7 +1241,8 @@ def _k3r_parts(tier):
 
 def _k3r_targets():
     msg = _msg()
-    return [msg._parse_multi_recipients, msg._parse_single_recipient]
+    return [msg._parse_multi_recipients, msg._parse_single_recipient] + \
+        ([msg._split_recipient_list] if hasattr(msg, "_split_recipient_list") else [])
 
 
 
@@ -1958,11 +1951,13 @@ KERNELS = [
            symbolic=["every character of every display name (printable ASCII, length <= 3, thorough 4)"],
            choices=["1 or 2 mailboxes", "form of each: name <addr>, \"name\" <addr>, <addr>, addr", "header string / list "
                     "of strings / PidTagDisplayTo name list"],
-           stubs=["re.search / re.split inside the two functions -> backtracking interpreter of the same pattern text on "
-                  "symbolic characters (lifted source, vf/lift.py); concrete replay runs the real functions"],
+           stubs=["_split_recipient_list, _parse_single_recipient, _parse_multi_recipients run from their own source lifted "
+                  "to symbolic strings (vf/lift.py); re.search / re.split inside them -> backtracking interpreter of the "
+                  "same pattern text on symbolic characters; concrete replay runs the real functions"],
            assumptions=["unquoted display names hold no RFC 5322 specials, quoted ones no quote or backslash; no leading/"
                         "trailing blank or apostrophe (Outlook's 'name' wrapping is removed on purpose)"],
-           outside=["escaped characters inside quoted display names, comments, group syntax, names longer than the bound"],
+           outside=["escaped characters inside quoted display names, comments, group syntax, names longer than the bound",
+                    "names-only display lists whose names contain a comma: ambiguous, split is documented"],
            timeout={"quick": 110, "thorough": 1200}, max_depth=800),
     Kernel("K3a", "mbox address / text headers: exactly the written (display name, address) pairs, in order, for every "
                   "display name over an alphabet of address specials and a non-ASCII letter, in every standard rendering",
